@@ -4,7 +4,7 @@ import json, os
 HERE = os.path.dirname(os.path.dirname(os.path.abspath(__file__)))
 P = {k: v for k, v in json.load(open(os.path.join(HERE, 'contracts', 'properties.json'))).items() if not k.startswith('_')}
 TEXT = {
- 'C01': 'Verus proves, for every configuration, size, engine and history, that decode returns exactly the reference erasure decoding dec_*_ref of what was given (R-layer). That dec_*_ref inverts the code (M3) is not mechanised: bounded native enumeration of all sufficient subsets.',
+ 'C01': 'Verus proves, for every configuration, size, engine and history, that decode returns exactly the reference erasure decoding dec_*_ref of what was given and encode the reference encoding enc_*_ref (R-layer), and that the reference decoder applied to any original_count-or-more received shards of a reference codeword returns every missing original, for both rates and the rule-selected default (M3: LCH basis as polynomials, derivative lemma, locator, degree count). The native all-subsets round trips remain as an independent cross-check.',
  'C02': 'Verus proves encode == enc_high_ref / enc_low_ref / rule-selected (FFT/IFFT formula over GF(2^16) from first principles) for all inputs and histories, and that these reference encoders equal the closed-form scaled Cauchy matrix of the property statement slot by slot (M2: LCH basis = polynomials, interpolation uniqueness, Lagrange form on aligned cosets). The native closed-form oracle remains as an independent cross-check.',
  'C03': 'One Engine trait contract against one reference spec; every engine implementation (Naive, NoSimd, Ssse3, Avx2, DefaultEngine - schedules and leaf kernels) is verified against it, so they agree wherever the contract defines the output. The x86 intrinsics are an assumed byte-wise model, cross-checked natively on all (symbol, log_m) pairs; Neon is not reachable on this host.',
  'C04': 'Byte placement (insert / undo / accessors) and slot independence (truncation commutes with every transform) are proved; sizes are unbounded in the proof.',
@@ -14,7 +14,7 @@ TEXT = {
  'C08': 'supports == README envelope formula as a spec function, proved for all usize pairs; Kani cross-checks the arithmetic loop-free.',
  'C09': 'DefaultRate* invariants carry the tag fixed by rule_high; its enc_spec / dec_spec are the dedicated codecs\' specs under that rule.',
  'C10': 'lib::encode / lib::decode proved equal to the fold of the streaming contracts in call order (errors exact). Collection tails are assumed helpers, covered by a bounded differential.',
- 'C11': 'Decoder bookkeeping is over sets of indexes; dec_spec reads received positions only (lemma); surplus-set equality is a corollary of the unmechanised M3 (bounded).',
+ 'C11': 'Decoder bookkeeping is over sets of indexes; dec_spec reads received positions only (lemma), hence order-free; the decoding theorems hold for every sufficient received set, so surplus shards cannot change the result; given originals are never exposed (accessor contracts).',
  'C12': 'Accessors, iterators and Drop against the work-space view, for all indexes.',
  'C13': 'Additivity, zero and scalar multiples (homogeneity: right-multiplications of the shift-xor field commute) of enc_high_ref / enc_low_ref proved by induction over layers and chunks, on top of the proved encode == enc_*_ref; every engine kernel is proved to be xor / multiplication by a data-independent constant.',
  'C14': 'target_feature entry points require cpu_has(f); DefaultEngine::new / eval_poly proved to call them only under the detection result and to pick the best reported ISA, in both platform views (x86_64: AVX2 > SSSE3 > NoSimd; aarch64: Neon > NoSimd).',
